@@ -1,8 +1,8 @@
 (* C07 - DFXP output is well-formed XML and internally consistent.
    Only statements closed by `exact`, with Print Assumptions, and non-vacuity examples. *)
 From Coq Require Import List ZArith Bool.
-From PV Require Import lib.Sx lib.Str lib.Result model.DfxpXml model.DfxpRegion model.DfxpDoc spec.SpecXmlAttr.
-From PV Require Import proofs.XmlAttrFacts proofs.DfxpRegionFacts proofs.DfxpPayloadFacts proofs.DfxpDocFacts.
+From PV Require Import lib.Sx lib.Str lib.Result model.DfxpXml model.DfxpRegion model.DfxpDoc model.DfxpSkel model.DfxpSkelHead spec.SpecXmlAttr spec.SpecXmlDoc.
+From PV Require Import proofs.XmlAttrFacts proofs.DfxpRegionFacts proofs.DfxpPayloadFacts proofs.DfxpDocFacts proofs.DfxpSkelFacts proofs.DfxpSkelRootFacts proofs.DfxpSkelHeadFacts.
 Import ListNotations.
 Open Scope Z_scope.
 
@@ -115,6 +115,77 @@ Theorem C07_single_doc_consistent_partial : forall p d, dom_single p d = true ->
 Proof. exact single_doc_consistent. Qed.
 Print Assumptions C07_single_doc_consistent_partial.
 
+(* ---- wave 7: the WHOLE document as a string (model/DfxpSkel.v: prolog, tt with its namespace declarations, head /
+        styling / layout, body / div / p, prettify's indentation and empty-element tags, attributes sorted and escaped /
+        quoted by the output formatter) is accepted by the specification's DOCUMENT machine (spec/SpecXmlDoc.v: XML
+        declaration, exactly one root element parsed by the strict content machine, white space only around it) -
+        whatever attribute dictionaries (valid distinct names, values of XML characters) and well-formed payloads
+        the tree carries ------------------------------------------------------------------------------------------- *)
+Theorem C07_document_wellformed : forall d, skdoc_ok d -> exists evs, doc_parse (dfxp_document d) = Some evs.
+Proof. exact skeleton_wellformed. Qed.
+Print Assumptions C07_document_wellformed.
+(* composed with C07_caption_payload_wellformed: from caption nodes (texts, style dictionaries, region ids, inline
+   attributes - balanced style nodes) and any language code made of XML characters to a well-formed document, main
+   and legacy writer *)
+Theorem C07_document_of_captions_wellformed : forall legacy ids lang styles regions divs,
+  forallb is_xml_char lang = true ->
+  Forall (fun a => attrs_ok a []) styles -> Forall (fun a => attrs_ok a []) regions ->
+  Forall (fun dv => attrs_ok (fst dv) [] /\ Forall (caption_ok ids) (snd dv)) divs ->
+  exists evs, doc_parse (dfxp_document (doc_of_captions legacy ids lang styles regions divs)) = Some evs.
+Proof. exact document_of_captions_wellformed. Qed.
+Print Assumptions C07_document_of_captions_wellformed.
+(* the content machine is compositional: content that is well-formed on its own is accepted inside any open elements,
+   after any text that does not end in ']' (so that no ']]>' can arise across the seam) *)
+Theorem C07_content_in_context : forall f evs, content_parse f = Some evs ->
+  forall base ev acc, hd1 acc = false -> exists ev' acc', xrun (cst base ev acc) f = Some (cst base ev' acc').
+Proof. exact content_in_context. Qed.
+Print Assumptions C07_content_in_context.
+(* bs4 writes the attributes of a tag sorted by name: a dictionary with valid distinct names stays one *)
+Theorem C07_sorted_attrs_ok : forall attrs, attrs_ok attrs [] -> attrs_ok (sort_attrs attrs) [].
+Proof. exact attrs_ok_sorted. Qed.
+Print Assumptions C07_sorted_attrs_ok.
+
+(* the root of the rendered document, read back by the document machine: the first event opens `tt` with the sorted
+   root dictionary - values decoded; for the writers' root dictionary: xmlns is the TTML namespace (root_in_ns) and
+   xml:lang is the language code that was given, whatever XML characters it contains *)
+Theorem C07_document_root : forall d, skdoc_ok d ->
+  exists rest, doc_parse (dfxp_document d) = Some (EOpen tt_name (sort_attrs (k_tt d)) :: rest).
+Proof. exact skeleton_root. Qed.
+Print Assumptions C07_document_root.
+Theorem C07_document_of_captions_root_in_ttml_namespace : forall legacy ids lang styles regions divs,
+  forallb is_xml_char lang = true ->
+  Forall (fun a => attrs_ok a []) styles -> Forall (fun a => attrs_ok a []) regions ->
+  Forall (fun dv => attrs_ok (fst dv) [] /\ Forall (caption_ok ids) (snd dv)) divs ->
+  exists rest, doc_parse (dfxp_document (doc_of_captions legacy ids lang styles regions divs))
+               = Some (EOpen (lit "tt") [(lit "xml:lang", lang); (lit "xmlns", ttml_ns); (lit "xmlns:tts", tts_ns)] :: rest)
+               /\ root_in_ns (lit "tt") ttml_ns
+                    (EOpen (lit "tt") [(lit "xml:lang", lang); (lit "xmlns", ttml_ns); (lit "xmlns:tts", tts_ns)] :: rest) = true.
+Proof. exact document_of_captions_root. Qed.
+Print Assumptions C07_document_of_captions_root_in_ttml_namespace.
+
+(* the <styling> section of the TREE (model/DfxpSkelHead.v: the <style> dictionaries DFXPWriter.write builds from the style
+   table - xml:id first, then the attributes of _recreate_style, an element only when it gets one): they are valid
+   dictionaries whenever ids and values are made of XML characters, and the ids / style= references READ FROM THEM are
+   exactly those of the traversal model `summarize` about which C07_doc_consistent_partial speaks (the body references
+   remain those of the model) *)
+Theorem C07_style_elems_ok : forall styles, (forall st, In st styles -> style_entry_ok st) ->
+  Forall (fun a => attrs_ok a []) (style_elems styles).
+Proof. exact style_elems_ok. Qed.
+Print Assumptions C07_style_elems_ok.
+Theorem C07_style_elems_are_the_summary : forall d,
+  elem_ids (style_elems (ds_styles d)) = s_style_ids (summarize d) /\
+  s_style_refs (summarize d) = elem_style_refs (style_elems (ds_styles d)) ++ body_style_refs (s_style_ids (summarize d)) d.
+Proof. exact style_elems_vs_summarize. Qed.
+Print Assumptions C07_style_elems_are_the_summary.
+(* the whole document with that <styling> section: no hypothesis on the style dictionaries any more, only XML characters *)
+Theorem C07_document_with_styling_wellformed : forall legacy table lang regions divs,
+  (forall st, In st table -> style_entry_ok st) -> forallb is_xml_char lang = true ->
+  Forall (fun a => attrs_ok a []) regions ->
+  Forall (fun dv => attrs_ok (fst dv) [] /\ Forall (caption_ok (fst (styling table))) (snd dv)) divs ->
+  exists evs, doc_parse (dfxp_document (doc_of_captions legacy (fst (styling table)) lang (style_elems table) regions divs)) = Some evs.
+Proof. exact document_with_styling. Qed.
+Print Assumptions C07_document_with_styling_wellformed.
+
 (* ---- non-vacuity ------------------------------------------------------------------------------------------------ *)
 Example C07_example_attr :
   attr_out (lit "a""b<c&d") = [39] ++ lit "a""b&lt;c&amp;d" ++ [39] /\
@@ -209,3 +280,62 @@ Example C07_example_single_positioning :
   s_region_ids (summarize (single_positioning (Some (7, true, true)) d)) = [lit "r0"] /\
   dom_single (Some (7, true, true)) (mkDset None [(lit "r0", [(lit "color", lit "white")])] (ds_langs d)) = false.
 Proof. vm_compute. repeat split. Qed.
+
+(* wave 7: a whole document - markup characters in a style value, a language code and a text; an empty <p>; an empty
+   <div> (written as an empty-element tag); the hypotheses of the document theorem hold for it; and the document
+   machine refuses what XML refuses at document level *)
+Definition C07_example_skdoc : skdoc :=
+  mkSkdoc (tt_attrs (lit "en"))
+          [[(lit "xml:id", lit "k1"); (lit "tts:color", lit "a""b'c<")]]
+          [[(lit "xml:id", lit "bottom"); (lit "tts:textAlign", lit "start")]]
+          [mkSkdiv [(lit "xml:lang", lit "en-US"); (lit "region", lit "bottom")]
+                   [mkSkp [(lit "begin", lit "00:00:00.000"); (lit "end", lit "00:00:01.000"); (lit "style", lit "k1"); (lit "region", lit "bottom")]
+                          (lit "  a &amp; b<br/>" ++ [10; 32; 32; 32; 32] ++ lit "<span tts:color='r""d'> x&lt;y </span>");
+                    mkSkp [(lit "begin", lit "1"); (lit "end", lit "2")] [32; 10]];
+           mkSkdiv [(lit "xml:lang", lit "f'""<")] []].
+Example C07_example_whole_document :
+  skdoc_ok C07_example_skdoc /\
+  firstn 44 (dfxp_document C07_example_skdoc) = lit "<?xml version=""1.0"" encoding=""utf-8""?>" ++ [10] ++ lit "<tt x" /\
+  is_infix (lit " <p begin=""00:00:00.000"" end=""00:00:01.000"" region=""bottom"" style=""k1"">" ++ [10] ++ lit "    a &amp; b<br/>")
+           (dfxp_document C07_example_skdoc) = true /\
+  is_infix (lit "<p begin=""1"" end=""2"">" ++ [10] ++ lit "   </p>") (dfxp_document C07_example_skdoc) = true /\
+  is_infix (lit "<div xml:lang=""f'&quot;&lt;""/>") (dfxp_document C07_example_skdoc) = true /\
+  match doc_parse (dfxp_document C07_example_skdoc) with
+  | Some evs => ns_ok evs && root_in_ns (lit "tt") ttml_ns evs
+  | None => false end = true.
+Proof.
+  split; [|vm_compute; repeat split].
+  unfold C07_example_skdoc, skdoc_ok. cbn [k_tt k_styles k_regions k_divs]. split; [cbn [attrs_ok tt_attrs]; repeat split; reflexivity|].
+  split; [repeat constructor|]. split; [repeat constructor|].
+  constructor; [|constructor; [|constructor]].
+  - split; [cbn [attrs_ok tt_attrs]; repeat split; reflexivity|]. cbn [kd_ps]. constructor; [|constructor; [|constructor]].
+    + split; [cbn [attrs_ok tt_attrs]; repeat split; reflexivity|]. eexists. vm_compute. reflexivity.
+    + split; [cbn [attrs_ok tt_attrs]; repeat split; reflexivity|]. eexists. vm_compute. reflexivity.
+  - split; [cbn [attrs_ok tt_attrs]; repeat split; reflexivity|constructor].
+Qed.
+Example C07_example_document_machine_refuses :
+  doc_parse (lit "<a/><b/>") = None /\ doc_parse (lit "<a/>x") = None /\ doc_parse (lit "x<a/>") = None /\
+  doc_parse (lit "<a>") = None /\ doc_parse (lit "<?xml encoding=""utf-8""?><a/>") = None /\
+  doc_parse (lit " <?xml version=""1.0""?><a/>") = None /\ doc_parse (lit "<?xml version=""1.0""?><a/>&#32;") = None /\
+  doc_parse (lit "<?xml version=""2.0""?><a/>") = None /\ doc_parse [] = None /\
+  doc_parse (lit "<?xml version='1.1' standalone = ""no"" ?> <a><a/></a> ") <> None /\
+  match doc_parse (lit "<a><b:c/></a>") with Some evs => ns_ok evs | None => true end = false /\
+  match doc_parse (lit "<a xmlns:b=""u""><b:c b:d=""1"" xml:id=""2""/></a>") with Some evs => ns_ok evs | None => false end = true.
+Proof. vm_compute. repeat split; discriminate. Qed.
+
+(* wave 7: the <style> dictionaries of the tree for a style table with a class chain, an empty style, a style that yields
+   no attribute, markup characters in an id; and for no styles at all (the default style) *)
+Example C07_example_style_elems :
+  let table := [(lit "a&b", [(lit "color", lit "white")]); (lit "e", []); (lit "k2", [(lit "class", lit "a&b"); (lit "italics", lit "x")]);
+                (lit "n", [(lit "class", lit "zz")])] in
+  (forall st, In st table -> style_entry_ok st) /\
+  style_elems table = [[(lit "xml:id", lit "a&b"); (lit "tts:color", lit "white")];
+                       [(lit "xml:id", lit "k2"); (lit "style", lit "a&b"); (lit "tts:fontStyle", lit "italic")]] /\
+  elem_ids (style_elems table) = [lit "a&b"; lit "k2"] /\ elem_style_refs (style_elems table) = [lit "a&b"] /\
+  style_elems [] = [[(lit "xml:id", lit "default"); (lit "tts:fontFamily", lit "monospace"); (lit "tts:fontSize", lit "1c");
+                     (lit "tts:color", lit "white")]].
+Proof.
+  split; [|vm_compute; repeat split].
+  intros st [<-|[<-|[<-|[<-|[]]]]]; split; try reflexivity; cbn [snd map]; intros v Hv; cbn [In] in Hv;
+    repeat match goal with H : _ \/ _ |- _ => destruct H end; subst; try reflexivity; contradiction.
+Qed.
